@@ -232,10 +232,14 @@ def build(scene, state=None, assemble=True, options=None, names=None, extra=None
         ty = jt["type"]
         name = nm("joint", j, f"j{j}")
         xi = {}
-        if ref_xi(jt["a"]) is not None:
-            xi["xi1"] = ref_xi(jt["a"])
-        if ref_xi(jt["b"]) is not None:
-            xi["xi2"] = ref_xi(jt["b"])
+        first, second = ("b", "a") if jt.get("swap") else ("a", "b")
+        if jt.get("swap"):
+            # legal calling style: the parent (origin / frame / earlier body) is handed over as SECOND partner
+            s1, s2 = s2, s1
+        if ref_xi(jt[first]) is not None:
+            xi["xi1"] = ref_xi(jt[first])
+        if ref_xi(jt[second]) is not None:
+            xi["xi2"] = ref_xi(jt[second])
         if ty == "revolute":
             a0 = jt.get("angle0", 0.0)
             if state is not None and j in state.get("angle0", {}):
@@ -255,7 +259,8 @@ def build(scene, state=None, assemble=True, options=None, names=None, extra=None
             c = Planarizer(s1, s2, axis=jt["axis"], r_OJ0=rJ, A_IJ0=AJ)
             c.name = name
         elif ty == "fixed_distance":
-            c = FixedDistance(s1, s2, B1_r_P1J1=np.array(jt.get("ra", [0, 0, 0]), dtype=float), B2_r_P2J2=np.array(jt.get("rb", [0, 0, 0]), dtype=float))
+            off = {"a": np.array(jt.get("ra", [0, 0, 0]), dtype=float), "b": np.array(jt.get("rb", [0, 0, 0]), dtype=float)}
+            c = FixedDistance(s1, s2, B1_r_P1J1=off[first], B2_r_P2J2=off[second])
             c.name = name
         else:
             raise ValueError(ty)
